@@ -70,6 +70,15 @@ func (f *Defmacro) Call(s *slip.Scope, args slip.List, depth int) (result slip.O
 	low := strings.ToLower(string(name))
 	lc := slip.DefLambda("defmacro", s, args[1:])
 	lc.Macro = true
+	if xlam := slip.CurrentPackage.GetLambda(low); xlam != nil {
+		// Keep one lambda per name so that callers compiled before and
+		// after an earlier definition all see this definition.
+		if 0 < len(s.Parents()) {
+			lc.Closure = s
+		}
+		*xlam = *lc
+		lc = xlam
+	}
 	fc := func(fargs slip.List) slip.Object {
 		return &slip.Dynamic{
 			Function: slip.Function{
